@@ -10,5 +10,11 @@ inline int8_t BadLookup(char c)
 {
   return kTable[static_cast<size_t>(c)];  // signed char keeps its sign
 }
+// a const static initialised from the argument of the first call keeps that value for ever
+inline char BadFrozenFlag(bool sampled)
+{
+  static const char flag = sampled ? '1' : '0';
+  return flag;
+}
 }  // namespace c09
 }  // namespace canary
